@@ -483,7 +483,16 @@ pub fn test_case(which: Which, budget: &Budget, c: &SchedCase, stats: &mut Stats
             {
                 audits::check_c07(&obs).map_err(ctx)?;
                 audits::check_c08_snapshot(&w, &obs.pre, &obs.post).map_err(ctx)?;
-                let o = outcome_of(&obs);
+                let mut o = outcome_of(&obs);
+                // how far a rule got before it failed (which of its targets had already been brought back from a shared
+                // cache entry) is not an outcome: targets of rules that fail or are cancelled in this build are not compared
+                for (i, r) in w.model.rules.iter().enumerate()
+                {
+                    if obs.reference.in_scope[i] && obs.reference.outcome[i] != ROut::Ok
+                    {
+                        for t in r.targets.iter() { o.1.remove(t); }
+                    }
+                }
                 match &baseline
                 {
                     None => baseline = Some(o),
@@ -679,7 +688,11 @@ fn prefix() -> impl Strategy<Value = Vec<Op>>
         3 => (any::<u16>(), 0u8..5, any::<u16>(), 0u8..5).prop_map(|(l1, c1, l2, c2)| vec![Op::Build { goal: None }, Op::Edit { leaf: l1, content: c1 }, Op::Build { goal: None },
             Op::Revert { leaf: l1 }, Op::Edit { leaf: l2, content: c2 }]),
         2 => (any::<u16>(), any::<u16>()).prop_map(|(a, b)| vec![Op::Build { goal: None }, Op::Swap { a, b }, Op::Build { goal: None }, Op::Swap { a, b }]),
-        3 => gen::ops(OpMix { rule_edits: true, ruler_dir_damage: false, cleans: true, delete_leaf: false, swaps: 1 }, 6),
+        // a stale file at a target path whose bytes the cache already holds
+        2 => (any::<u16>(), 0u8..5).prop_map(|(t, content)| vec![Op::Build { goal: None }, Op::Tamper { t, content }, Op::Build { goal: None }, Op::Tamper { t, content }]),
+        // a cleaned workspace whose output directory the user removed
+        2 => any::<u16>().prop_map(|d| vec![Op::Build { goal: None }, Op::Clean { goal: None }, Op::RemoveDir { d }]),
+        3 => gen::ops(OpMix { rule_edits: true, ruler_dir_damage: false, cleans: true, delete_leaf: false, swaps: 1, dir_ops: 1 }, 6),
     ]
 }
 
@@ -740,6 +753,19 @@ pub fn strategy(which: Which, max_rules: usize, extra_scheds: usize) -> impl Str
                 *c %= 2;
             }
         }
+        if which == Which::C03 && graph.render_seed % 2 == 0
+        {
+            // denser rule-to-rule wiring: aim the source picks at the upper part of the candidate list (targets of
+            // earlier rules rather than leaves), so that shapes like G<-{P,S}, P<-{C,Q}, C<-{S} occur
+            for (i, r) in graph.rules.iter_mut().enumerate()
+            {
+                if i > 0
+                {
+                    for p in r.srcs.iter_mut() { *p = 0x8000 | (*p >> 1); }
+                }
+            }
+        }
+        let goal = if which == Which::C03 && goal.is_none() && graph.name_seed % 3 == 0 { Some(graph.name_seed.wrapping_mul(31)) } else { goal };
         SchedCase { graph, prefix, fail, missing, goal, clean, scheds }
     })
 }
@@ -825,6 +851,6 @@ sched_prop!(Which::C05, test_c05, run_c05_scenarios, replay_c05_scenarios, 5, (1
 sched_prop!(Which::C06, test_c06, run_c06, replay_c06, 6, (1500u32, 6usize, 12usize, 240usize), (10000u32, 9usize, 60usize, 2000usize),
     "scenario = graph biased toward byte-identical outputs of unrelated rules x initial state biased toward cleaned / reverted states (several targets share one cache \
      entry, targets displaced and restored in the same build) x final build or clean x schedules (2 serial, single-preemption enumeration, generated). Oracle: verdict and the \
-     bytes and existence of every file outside the ruler directory equal the serial run for every schedule; cache stays content-addressed and nothing is lost on every \
+     bytes and existence of every file outside the ruler directory (except targets of rules that fail or are cancelled in this build) equal the serial run for every schedule; cache stays content-addressed and nothing is lost on every \
      run. Non-trivial = two threads touched the same cache entry in some run and a preemption was taken; distinct by case hash",
     ["only the observables the property names are compared: not which rule won a restore, not execution counts, not modification times"]);
